@@ -537,8 +537,107 @@ class FnEmitter:
                         self.counts['R12'] = self.counts.get('R12', 0) + 1
             k += 1
 
-        loops = loop_heads(toks, bopen + 1, bclose)
         isolated = not any('loop_isolation(false)' in l for _, l in (con.get('attr') or []))
+
+        # R13: `RECV.iter().fold(INIT, |mut ACC, &X| {ACC OP= X; ACC})` -> the loop that Iterator::fold is
+        # defined as (core: `let mut accum = init; for x in self { accum = f(accum, x); } accum`), with the
+        # closure body inlined and the compound assignment written out (`ACC = ACC OP X`; Verus's front
+        # end crashes on compound assignment to an f64).  Only this exact closure shape is rewritten; any other
+        # closure passed to fold stays as it is and makes the unit UNDECIDED (closures in iterator
+        # adapters are outside the Verus subset).  The operator, its operand order, the start value and the
+        # receiver are copied from the source.  Contract sections: [fold K iter=NAME] (invariants),
+        # [at foldK.start], [at foldK.end], [after foldK].
+        def sig_seq(k, n):
+            res = []
+            while len(res) < n and k < bclose:
+                res.append(k)
+                k = next_sig(toks, k)
+            return res
+        k = bopen
+        nfold = 0
+        while k < bclose:
+            t = toks[k]
+            if t.kind == 'id' and t.text == 'fold':
+                pd = prev_sig(toks, k)
+                s = sig_seq(k, 40)
+                tx = [toks[i].text for i in s]
+                # back: RECV . iter ( ) . fold
+                b5 = [pd]
+                for _ in range(5):
+                    b5.append(prev_sig(toks, b5[-1]))
+                back = [toks[i].text for i in b5]      # '.', ')', '(', 'iter', '.', RECV
+                ok = back[:5] == ['.', ')', '(', 'iter', '.'] and toks[b5[5]].kind == 'id'
+                recv_idx = b5[5]
+                if ok and tx[1] == '(':
+                    cl = match_close(toks, s[1])
+                    # INIT = tokens up to the first top-level comma
+                    q = next_sig(toks, s[1])
+                    depth = 0
+                    init_start = q
+                    while q < cl:
+                        tq = toks[q]
+                        if tq.kind == 'p':
+                            if tq.text in '([{':
+                                depth += 1
+                            elif tq.text in ')]}':
+                                depth -= 1
+                            elif tq.text == ',' and depth == 0:
+                                break
+                        q += 1
+                    init_text = text[toks[init_start].start:toks[prev_sig(toks, q)].end]
+                    c = sig_seq(next_sig(toks, q), 16)
+                    ct = [toks[i].text for i in c]
+                    # | mut ACC , & X | { ACC OP = X ; ACC } )
+                    shape = (len(ct) >= 16 and ct[0] == '|' and ct[1] == 'mut' and ct[3] == ',' and ct[4] == '&' and ct[6] == '|'
+                             and ct[7] == '{' and ct[8] == ct[2] and ct[9] in ('+', '-', '*', '/') and ct[10] == '='
+                             and ct[11] == ct[5] and ct[12] == ';' and ct[13] == ct[2] and ct[14] == '}' and c[15] == cl
+                             and toks[c[2]].kind == 'id' and toks[c[5]].kind == 'id')
+                    if shape:
+                        acc, xv, op = ct[2], ct[5], ct[9]
+                        sec = None
+                        itername = 'fold_it%d' % nfold
+                        for sname in con.sections:
+                            m = re.match(r'^fold\s+%d(\s+iter=([A-Za-z_][A-Za-z0-9_]*))?$' % nfold, sname)
+                            if m:
+                                sec = sname
+                                if m.group(2):
+                                    itername = m.group(2)
+                        a0 = toks[recv_idx].start
+                        b0 = toks[cl].end
+                        recv = toks[recv_idx].text
+                        edits.append((a0, b0, '{ let mut %s = %s; for %s in %s: %s.iter()' % (acc, init_text, xv, itername, recv), None))
+                        def fsub(blk, acc=acc, xv=xv):
+                            # $ACC / $X in fold sections stand for the closure's parameter names
+                            return [(l.replace('$ACC', acc).replace('$X', xv), o) for l, o in blk]
+                        if sec:
+                            edits.append((b0, b0, ('\n', fsub(block_text(sec)), ''), 'block2'))
+                        edits.append((b0, b0, ('', [], '{ '), 'block2'))
+                        if self.canary == 'B' and not isolated:
+                            edits.append((b0, b0, ('\n', [('assert(false); // CANARY', {'k': 'canary', 'fn': key, 'where': 'fold%d' % nfold})], ''), 'block2'))
+                        st = block_text('at fold%d.start' % nfold)
+                        if st:
+                            edits.append((b0, b0, ('\n', fsub(st), ''), 'block2'))
+                        edits.append((b0, b0, ('', [], 'let %s = *%s; %s = %s %s %s; ' % (xv, xv, acc, acc, op, xv)), 'block2'))
+                        en = block_text('at fold%d.end' % nfold)
+                        if en:
+                            edits.append((b0, b0, ('\n', fsub(en), ''), 'block2'))
+                        edits.append((b0, b0, ('', [], '} '), 'block2'))
+                        af = block_text('after fold%d' % nfold)
+                        if af:
+                            edits.append((b0, b0, ('\n', fsub(af), ''), 'block2'))
+                        edits.append((b0, b0, ('', [], '%s }' % acc), 'block2'))
+                        self.counts['R13'] = self.counts.get('R13', 0) + 1
+                        nfold += 1
+                        k = cl
+            k += 1
+        for sname in con.sections:
+            m = re.match(r'^(?:fold\s+(\d+)|at fold(\d+)\.(?:start|end)|after fold(\d+))', sname)
+            if m:
+                n = int(next(g for g in m.groups() if g is not None))
+                if n >= nfold:
+                    raise Undecided('lost anchor in %s: contract section [%s] but the source has %d fold(..) calls of the R13 shape' % (key, sname, nfold))
+
+        loops = loop_heads(toks, bopen + 1, bclose)
         if not isolated and loops:
             self.info.setdefault('non_isolated', []).append(key)
         if con.expect_loops is not None and con.expect_loops != len(loops):
@@ -572,7 +671,7 @@ class FnEmitter:
             m = re.match(r'^(before|after)\s+([A-Za-z_][A-Za-z0-9_]*)$', sname)
             if m:
                 ref = m.group(2)
-            if ref is None or ref == 'body':
+            if ref is None or ref == 'body' or re.match(r'^fold\d+$', ref):
                 continue
             if re.match(r'^loop\d+$', ref):
                 ref = ref[4:]
@@ -741,7 +840,7 @@ class FnEmitter:
             elif k == 'c':
                 res.append((t, o))
             else:
-                res.append((t, {'k': 'gen'}))
+                res.append((t, {'k': 'gen', 'fn': '%s::%s' % (self.srcfile, self.fnpath)}))
         return res
 
     def _wrap(self, out, item, attrs, segs):
